@@ -285,6 +285,11 @@ nni_msgq_aio_get(nni_msgq *mq, nni_aio *aio)
 	    ((mq->mq_len != 0) || (!nni_list_empty(&mq->mq_aio_putq)))) {
 		nni_aio_list_append(&mq->mq_aio_getq, aio);
 		nni_msgq_run_getq(mq);
+		// The room this made belongs to the writers that are
+		// already waiting (a new non-blocking put may not overtake
+		// them, so room next to a waiting writer would be announced
+		// by the send descriptor and refused to whoever polls it).
+		nni_msgq_run_putq(mq);
 		nni_msgq_run_notify(mq);
 		nni_mtx_unlock(&mq->mq_lock);
 		return;
@@ -296,6 +301,7 @@ nni_msgq_aio_get(nni_msgq *mq, nni_aio *aio)
 
 	nni_aio_list_append(&mq->mq_aio_getq, aio);
 	nni_msgq_run_getq(mq);
+	nni_msgq_run_putq(mq);
 	nni_msgq_run_notify(mq);
 
 	nni_mtx_unlock(&mq->mq_lock);
